@@ -499,6 +499,18 @@ def multimultiForced (s : Val) (g : List Val → Out (List (List Val))) : Out Va
   | some k, some xs => (g xs).map fun groups => list (groups.map (pack (kindRule k)))
   | _, _ => .throw
 
+/-- `char::is_whitespace` (the Unicode `White_Space` property): U+0009–U+000D, space, NEL U+0085,
+NBSP U+00A0, U+1680, U+2000–U+200A, U+2028, U+2029, U+202F, U+205F, U+3000 -/
+def isWs (c : Char) : Bool :=
+  let n := c.toNat
+  (9 ≤ n && n ≤ 13) || n == 0x20 || n == 0x85 || n == 0xA0 || n == 0x1680 ||
+  (0x2000 ≤ n && n ≤ 0x200A) || n == 0x2028 || n == 0x2029 || n == 0x202F || n == 0x205F || n == 0x3000
+
+/-- `str::trim_start` / `trim_end` / `trim` (std): drop the whitespace run at that end -/
+def trimStart (s : List Char) : List Char := s.dropWhile isWs
+def trimEnd (s : List Char) : List Char := (s.reverse.dropWhile isWs).reverse
+def trimBoth (s : List Char) : List Char := trimEnd (trimStart s)
+
 /-! ## the algorithms, as a record (Impl and Spec instantiate it) -/
 
 structure Lib where
@@ -597,7 +609,7 @@ def implLib : Lib where
   permutations := permutations
   join := join
   split := split
-  words := words Char.isWhitespace
+  words := words isWs
   lines := lines '\n'
   uncons := uncons
   unsnoc := unsnoc
@@ -978,6 +990,13 @@ def call (L : Lib) (name : String) (args : List Arg) : Out Val :=
   | "join", [.v s, .v (.str sep)] => andThen s.iter fun xs => .ok (.str (L.join sep display xs))
   | "split", [.v (.str s), .v (.str sep)] => .ok (.list ((L.split s sep).map .str))
   | "words", [.v (.str s)] => .ok (.list ((L.words s).map .str))
+  | "strip", [.v (.str s)] => .ok (.str (trimBoth s))
+  | "trim", [.v (.str s)] => .ok (.str (trimBoth s))
+  | "strip_start", [.v (.str s)] => .ok (.str (trimStart s))
+  | "trim_start", [.v (.str s)] => .ok (.str (trimStart s))
+  | "strip_end", [.v (.str s)] => .ok (.str (trimEnd s))
+  | "trim_end", [.v (.str s)] => .ok (.str (trimEnd s))
+  | "is_space", [.v (.str s)] => .ok (ofBool (s.all isWs))
   | "lines", [.v (.str s)] => .ok (.list ((L.lines s).map .str))
   | _, _ => .throw
 
